@@ -15,7 +15,7 @@ from __future__ import annotations
 import json
 import re
 
-from . import common, progen, whole
+from . import c13, common, progen, whole
 from .common import Check, Driver, proof_stage, rng_for
 
 PROP = "C05"
@@ -103,9 +103,13 @@ def run(tier: str, seed: int) -> int:
     for i in range(40 if tier == "quick" else 1500):
         names = r.sample(SAFE_NAMES + TRICKY_NAMES, r.randrange(2, 5))
         progs.append((f"ident:{i}", ident_program(r, names), None))
+    # programs split into library modules (function labels carry the module name; early returns inside library functions)
+    for i in range(30 if tier == "quick" else 1500):
+        msrc, merged, desc = c13.gen_split(r)
+        progs.append((f"split:{i}", msrc, None))
     for name, src, gp in progs:
         base = whole.random_opts(r)
-        if gp is not None or name.startswith("ident"):
+        if gp is not None or name.startswith("ident") or name.startswith("split"):
             # calling-convention / tail-call / inlining options have their own property (C02) and known findings;
             # here only the behaviour-neutral options vary
             base.update(tail_call_optimization=False, use_push_pop_functions=False, inline_functions=False)
